@@ -106,25 +106,27 @@ Edges(S, n, root, prev) ==
       /\ S.nodes[p[1]].kids[p[2]].trk }
 
 \* deterministic order so that sums are well-defined terms in the symbolic domain
-RECURSIVE SetToSeq(_)
-SetToSeq(E) == IF E = {} THEN <<>> ELSE
+RECURSIVE EdgeSeq(_)
+EdgeSeq(E) == IF E = {} THEN <<>> ELSE
   LET p == CHOOSE p \in E : \A q \in E : p[1] > q[1] \/ (p[1] = q[1] /\ p[2] <= q[2])
-  IN <<p>> \o SetToSeq(E \ {p})
+  IN <<p>> \o EdgeSeq(E \ {p})
 
-RECURSIVE SumContribs(_,_,_,_)
-SumContribs(S, ps, prev, acc) ==
-  IF ps = <<>> THEN acc ELSE
-  LET p == Head(ps)
-      t == Contribution(S, p[1], p[2], prev[p[1]].x)
-  IN SumContribs(S, Tail(ps), prev, IF acc.none THEN Some(t) ELSE Some(TAdd(acc.x, t)))
+\* element-wise sum of a non-empty sequence of tensors of equal dims
+SumTensors(cs) == T(cs[1].d, [k \in 1..Len(cs[1].v) |-> SumV([i \in 1..Len(cs) |-> cs[i].v[k]])])
 
-RefAdj(S, root, seed) ==
-  LET f[k \in 0..(root-1)] ==
-        LET n == root - k IN
-        IF k = 0 THEN (n :> Some(seed))
-        ELSE LET prev == f[k-1]
-             IN prev @@ (n :> SumContribs(S, SetToSeq(Edges(S, n, root, prev)), prev, None))
-  IN f[root-1]
+\* the complete adjoint of node n given the adjoints acc of all nodes above it
+AdjOf(S, n, root, acc) ==
+  LET ps == EdgeSeq(Edges(S, n, root, acc)) IN
+  IF ps = <<>> THEN None
+  ELSE Some(SumTensors([i \in 1..Len(ps) |-> Contribution(S, ps[i][1], ps[i][2], acc[ps[i][1]].x)] \o <<>>))
+
+\* descending from the root: acc maps every node above n to None | Some(adjoint).
+\* (Strict: the accumulated map is passed as a value, not re-evaluated at each level.)
+RECURSIVE AdjDown(_,_,_,_)
+AdjDown(S, root, n, acc) ==
+  IF n = 0 THEN acc
+  ELSE Strict(acc @@ (n :> AdjOf(S, n, root, acc)), LAMBDA a2 : AdjDown(S, root, n - 1, a2))
+RefAdj(S, root, seed) == AdjDown(S, root, root - 1, (root :> Some(seed)))
 
 SeedOf(S, h, seedOpt) == IF seedOpt.none THEN Ones(HandleT(S, h).d) ELSE seedOpt.x
 
@@ -180,8 +182,8 @@ KidSet(S, n) == { S.nodes[n].kids[i].n : i \in 1..Len(S.nodes[n].kids) }
 RECURSIVE ReachKids(_,_,_)
 ReachKids(S, front, seen) ==
   IF front = {} THEN seen ELSE
-  LET nxt == (UNION { KidSet(S, n) : n \in front }) \ (seen \cup front)
-  IN ReachKids(S, nxt, seen \cup front)
+  Strict(<<(UNION { KidSet(S, n) : n \in front }) \ (seen \cup front), seen \cup front>>,
+         LAMBDA p : ReachKids(S, p[1], p[2]))
 Alive(S, hs) == ReachKids(S, { S.hd[o].n : o \in hs }, {})
 
 \* Vec::from(h) MUST succeed: h is the only handle or view on its buffer, the node holds
@@ -202,19 +204,18 @@ IntoVec(S, h) == Drop(S, h)
 (* untouched.  Positions are processed in order (a second handle on the    *)
 (* same array sees the slot already emptied).                              *)
 (***************************************************************************)
+UpdateOne(S, h, lr, uid) ==
+  LET n == S.hd[h].n IN
+  IF S.grad[n].none THEN S
+  ELSE LET new == T(S.nodes[n].t.d,
+                    [k \in 1..Len(S.nodes[n].t.v) |->
+                       SAdd(S.nodes[n].t.v[k], SNeg(SMul(lr, S.grad[n].x.v[k])))])
+           m == Len(S.nodes) + 1
+           S1 == AddNode([S EXCEPT !.grad[n] = None], MkNode(new, "leaf", <<>>, <<>>, m, uid, "leaf"))
+       IN [S1 EXCEPT !.hd = FnPut(S1.hd, h, [n |-> m, trk |-> TRUE, keep |-> TRUE])]
 RECURSIVE Update(_,_,_,_)
 Update(S, hs, lr, uid) ==
-  IF hs = <<>> THEN S ELSE
-  LET h == Head(hs)
-      n == S.hd[h].n
-  IN IF S.grad[n].none THEN Update(S, Tail(hs), lr, uid)
-     ELSE LET new == T(S.nodes[n].t.d,
-                       [k \in 1..Len(S.nodes[n].t.v) |->
-                          SAdd(S.nodes[n].t.v[k], SNeg(SMul(lr, S.grad[n].x.v[k])))])
-              m == Len(S.nodes) + 1
-              S1 == AddNode([S EXCEPT !.grad[n] = None],
-                            MkNode(new, "leaf", <<>>, <<>>, m, uid, "leaf"))
-              S2 == [S1 EXCEPT !.hd = FnPut(S1.hd, h, [n |-> m, trk |-> TRUE, keep |-> TRUE])]
-          IN Update(S2, Tail(hs), lr, uid)
+  IF hs = <<>> THEN S
+  ELSE Strict(UpdateOne(S, Head(hs), lr, uid), LAMBDA S2 : Update(S2, Tail(hs), lr, uid))
 
 =============================================================================
